@@ -412,11 +412,18 @@ pub fn parse_event(what: &str, text: &str, b: &Board) -> Value {
             Err(_) => (false, true, Value::Null),
         },
         "san" => match san::Move::from_str(text) {
-            Ok(v) => (true, san::Move::from_str(&v.to_string()) == Ok(v), text_json(&v.to_string())),
+            Ok(v) => {
+                // (the figurine style is formatted too: a panic there is a panic of the value's formatter)
+                let _ = v.styled(san::Style::Utf8).to_string();
+                (true, san::Move::from_str(&v.to_string()) == Ok(v), text_json(&v.to_string()))
+            }
             Err(_) => (false, true, Value::Null),
         },
         "sandata" => match san::Data::from_str(text) {
-            Ok(v) => (true, san::Data::from_str(&v.to_string()) == Ok(v), text_json(&v.to_string())),
+            Ok(v) => {
+                let _ = v.styled(san::Style::Utf8).to_string();
+                (true, san::Data::from_str(&v.to_string()) == Ok(v), text_json(&v.to_string()))
+            }
             Err(_) => (false, true, Value::Null),
         },
         "rawfen" => match RawBoard::from_fen(text) {
